@@ -144,7 +144,7 @@ fn want_hash(data: &[u8], a: &str, entry: Entry) -> String {
 }
 
 fn case(data: &[u8], a: &str, entry: Entry, script: &[Ans]) -> Value {
-    json!({"input": if data.len() <= 400 { bytes_json(data) } else { json!({"hex": mc_core::hex(data), "len": data.len()}) },
+    json!({"input": if data.len() <= 400 { bytes_json(data) } else { mc_core::bytes_json_rle(data) },
            "algo": a, "entry": if entry == Entry::File { "hash_file" } else { "hash_patch" },
            "script": script.iter().map(|x| x.json()).collect::<Vec<_>>()})
 }
@@ -485,6 +485,25 @@ fn main() {
             jobs.push(Job { data: c, entry: Entry::Patch, bound: 1, compositions: false });
         }
     }
+    // very long lines (2^k + d bytes, k = 17..=23, thorough 24): the marker at the start, in the
+    // middle (just past 2^(k-1)) and at the end of one line; the line must vanish as a whole
+    for k in 17..=run.pick(23, 24) as u32 {
+        for d in [-1i64, 0, 1] {
+            let len = ((1i64 << k) + d) as usize;
+            for at in [0usize, (len / 2) + 3, len - 9] {
+                let mut c = b"first\n".to_vec();
+                let mut line = vec![b'L'; len];
+                line[at..at + 7].copy_from_slice(b"$NetBSD");
+                c.extend_from_slice(&line);
+                c.extend_from_slice(b"\nkept after the long line\n");
+                jobs.push(Job { data: c, entry: Entry::Patch, bound: 0, compositions: false });
+            }
+        }
+        // no marker at all: the whole long line is hashed
+        let mut c = vec![b'N'; (1usize << k) + 1];
+        c.extend_from_slice(b"\n$NetBSD$\nend");
+        jobs.push(Job { data: c, entry: Entry::Patch, bound: 0, compositions: false });
+    }
     let pi = patch_inputs(run.pick(3, 4));
     for d in &pi {
         let small = d.len() <= run.pick(8, 10);
@@ -502,6 +521,48 @@ fn main() {
         }
         t.sample(run.seed, i as u64, || json!({"input_len": job.data.len(), "entry": format!("{:?}", job.entry), "deviation_bound": job.bound, "all_compositions": job.compositions}));
     });
+
+    // runs of consecutive EINTR answers (1, 2, 3, 2^e-1, 2^e, 2^e+1 up to 2^16) before the first
+    // read, before a middle read and before the read that reports end of file; and a reader that
+    // hands out one byte per call for the whole input
+    {
+        let mut runs: Vec<usize> = vec![1, 2, 3, 5, 10, 100, 1000, 10000];
+        for e in 2..=16u32 {
+            for d in [-1i64, 0, 1] {
+                runs.push(((1i64 << e) + d) as usize);
+            }
+        }
+        runs.sort();
+        runs.dedup();
+        let inputs: Vec<Vec<u8>> = vec![vec![], b"a\n$NetBSD$\nb\n".to_vec(), pattern_bytes(20000)];
+        let items: Vec<(usize, usize, Entry)> = runs.iter().flat_map(|r| (0..inputs.len()).flat_map(move |i| [Entry::File, Entry::Patch].into_iter().map(move |e| (*r, i, e)))).collect();
+        run.bound(format!("EINTR runs: {} run lengths up to 65537 x 3 inputs x 2 entry points x 3 positions x 6 algorithms; one-byte-per-call reader on inputs up to 70000 bytes", runs.len()));
+        par_items(&run, "C13 EINTR runs", &items, |_, (r, i, entry), t| {
+            let data = &inputs[*i];
+            for a in mdigest::ALGOS {
+                let want = want_hash(data, a, *entry);
+                // where: 0 = before the first call, 1 = after one successful call, 2 = before the last (EOF) call
+                let base = execute(data, a, *entry, &[]).map(|o| o.calls.len()).unwrap_or(1);
+                for pre in [0usize, 1.min(base - 1), base - 1] {
+                    let mut script = vec![Ans::Fill; pre];
+                    script.extend(std::iter::repeat(Ans::Interrupted).take(*r));
+                    run_schedule(t, data, a, *entry, &script, &want);
+                }
+            }
+        });
+        let mut t = Tally::new();
+        for len in [1usize, 100, 8193, 70000] {
+            let data = pattern_bytes(len);
+            let script = vec![Ans::Bytes(1); len + 2];
+            for entry in [Entry::File, Entry::Patch] {
+                for a in mdigest::ALGOS {
+                    let want = want_hash(&data, a, entry);
+                    run_schedule(&mut t, &data, a, entry, &script, &want);
+                }
+            }
+        }
+        run.merge(t);
+    }
 
     let mut t = Tally::new();
     for len in 0..=l {
